@@ -1,0 +1,19 @@
+//go:build verif
+
+package lungo
+
+// verifHook, when set, is called at the synchronisation points of the engine, sessions and
+// streams (build tag "verif" only; see /verif/DESIGN.md §7). It may block the calling
+// goroutine: the verification harness uses it to record and to control interleavings.
+var verifHook func(point string, args ...interface{})
+
+// VerifSetHook installs (or, with nil, removes) the hook.
+func VerifSetHook(h func(point string, args ...interface{})) {
+	verifHook = h
+}
+
+func verifAt(point string, args ...interface{}) {
+	if h := verifHook; h != nil {
+		h(point, args...)
+	}
+}
